@@ -247,6 +247,7 @@ class _World:
             typ = (t + act[1]) % NT
             if typ == t:
                 self.labels.add("reentrant-same-type")
+            self.log.append(["nest", self.depth])
             self.depth += 1
             try:
                 if k == "fire":
@@ -428,6 +429,13 @@ def _classify(exp, got):
         i += 1
     e = exp[i] if i < len(exp) else None
     g = got[i] if i < len(got) else None
+    if i > 0 and exp[i - 1][0] == "nest":       # the verdict on a fire made from inside notify differs
+        if e and e[0] == "refused" and not (g and g[0] == "refused"):
+            return "nested-fire-accepted"
+        if g and g[0] == "refused" and not (e and e[0] == "refused"):
+            return "nested-fire-refused"
+    if e and g and e[0] == "has" and g[0] == "has" and e[2] == g[2]:
+        return "has_listeners-in-notify"
     if e and g and e[0] == "n" and g[0] == "n" and e[1:3] == g[1:3] and e[5] == g[5]:
         if e[3] != g[3]:
             return "content"
@@ -470,7 +478,7 @@ def _guard(fn, *args):
 
 
 def _junk(real, j):
-    ps, types = real.ps, real.types
+    ps = real.ps
 
     class Duck:
         def notify(self, event):
@@ -538,16 +546,15 @@ def run_case(case):
             out.fail("unexpected-exception:%s:%s" % (k, type(exc).__name__),
                      {"op": opi, "opv": op, "exc": str(exc)})
 
-        # ---- observers after every op
+        # ---- observers after every op; the first symptom is reported, the rest would be its echo
+        if out.disc:
+            break
         if real.log != model.log:
             out.fail("delivery:" + _classify(model.log, real.log),
                      {"op": opi, "opv": op, "want": model.log[:12], "got": real.log[:12],
                       "want_len": len(model.log), "got_len": len(real.log)})
+            break
         try:
-            h = real.has()
-            if bool(h) != model.has():
-                out.fail("has_listeners", {"op": opi, "opv": op, "got": repr(h), "want": model.has(),
-                                           "model": model.subs})
             # quiet probe: who is subscribed to each type, in which order
             real.quiet = True
             for t in range(NT):
@@ -557,7 +564,12 @@ def run_case(case):
                 if real.probe != model.subs[t]:
                     out.fail("subscribers:" + _classify_seq(model.subs[t], real.probe),
                              {"op": opi, "opv": op, "type": t, "got": real.probe, "want": model.subs[t]})
+                    break
             real.quiet = False
+            h = real.has()
+            if not out.disc and bool(h) != model.has():
+                out.fail("has_listeners", {"op": opi, "opv": op, "got": repr(h), "want": model.has(),
+                                           "model": model.subs})
         except Exception as e:
             real.quiet = False
             out.fail("unexpected-exception:observer:%s" % type(e).__name__, {"op": opi, "opv": op, "exc": str(e)})
